@@ -127,10 +127,13 @@ def make_descriptor(rs, profile="full", for_mapping=False):
     # never let two blocks of a same-signature species collapse into a system with a single copy: fine, n >= 2 in total
     files = []
     present = {}
+    cg_names = {}
+    pseudo = []
     for sp in species:
         st = NAME_STYLES[int(rs.randint(0, len(NAME_STYLES)))]
         n = sp["name"]
         roles = {"cg": st[0].format(n=n), "aa_top": st[1].format(n=n), "aa_coor": st[2].format(n=n)}
+        cg_names[n] = roles["cg"]
         drop = None
         if not for_mapping and profile != "small":
             u = rs.randint(0, 10)
@@ -156,6 +159,17 @@ def make_descriptor(rs, profile="full", for_mapping=False):
         files.append({"name": "ABS_CG.itp", "kind": "top", "mol": "ABS", "res": "cg"})
         files.append({"name": "ABS_AA.itp", "kind": "top", "mol": "ABS", "res": "aa"})
         files.append({"name": "ABS_AA.gro", "kind": "coor", "mols": [["ABS", "aa"]]})
+    # near-miss distractor: a topology of ANOTHER molecule with the residue name(s) and atoms per residue of a real
+    # species but one different atom name; it sorts before or after the genuine start topology.  It must get nothing
+    # and must not disturb the real species (a refused topology leaves the system untouched).
+    if rs.randint(0, 3 if profile == "small" else 2) == 0:
+        sp = species[int(rs.randint(0, len(species)))]
+        ps = near_miss(rs, sp, str(len(pseudo)))
+        pseudo.append(ps)
+        g = cg_names[sp["name"]]
+        root_, ext_ = os.path.splitext(g)
+        fname = ["0_" + g, root_ + ".alt" + ext_, "zz_" + g, root_ + "_zalt" + ext_][int(rs.randint(0, 4))]
+        files.append({"name": fname, "kind": "top", "mol": ps["name"], "res": "cg"})
     # distractors
     pool = [{"name": "ff_martini.itp", "kind": "raw", "text": "[ defaults ]\n1 1 no 1.0 1.0\n\n[ atomtypes ]\nP5 72.0 0.0 A 0.0 0.0\n"},
             {"name": "empty.itp", "kind": "raw", "text": ""},
@@ -194,15 +208,40 @@ def make_descriptor(rs, profile="full", for_mapping=False):
     known = []
     for sp in species:
         p = present[sp["name"]]
-        if len(p) == 3 and rs.randint(0, 4) == 0 and not (for_mapping and False):
+        if len(p) == 3 and rs.randint(0, 3) == 0:
             known.append([p["cg"], p["aa_coor"], p["aa_top"]])
+            if not for_mapping and rs.randint(0, 5) < 3:
+                # the explicit species' files are ALSO listed under another spelling of the same path and/or as a copy:
+                # the textual removal does not see them, only the pre-loaded start system keeps the species out
+                for x in known[-1]:
+                    if rs.randint(0, 3):
+                        listing.append(["REL:", "DOT:"][int(rs.randint(0, 2))] + x)
+                if rs.randint(0, 2):
+                    files.append({"name": "copy_of_" + p["cg"], "kind": "top", "mol": sp["name"], "res": "cg"})
+                    listing.append("copy_of_" + p["cg"])
+                if rs.randint(0, 3) == 0:
+                    files.append({"name": "copy_of_" + p["aa_top"], "kind": "top", "mol": sp["name"], "res": "aa"})
+                    listing.append("copy_of_" + p["aa_top"])
     exclude = None
     if rs.randint(0, 2):
         names = [sp["name"] for sp in species] + ["SOL", "NOPE"]
         exclude = [names[int(i)] for i in rs.permutation(len(names))[:int(rs.randint(1, 3))]]
-    return {"species": species + ([absent] if absent else []), "in_system": [sp["name"] for sp in species],
+    return {"species": species + ([absent] if absent else []) + pseudo, "in_system": [sp["name"] for sp in species],
             "blocks": [[b[0], int(b[1])] for b in blocks], "files": files, "ref": ref_name, "auto": listing,
             "known": known, "exclude": exclude, "geom_seed": int(rs.randint(0, 2 ** 31 - 1)), "profile": profile}
+
+
+def near_miss(rs, sp, tag, alias=False):
+    """pseudo species with the residue names and sizes of sp's start resolution: one atom name changed (the topology
+    passes the (resname, size) lookup and the window search, and is refused when the Molecule is built), or - alias -
+    the same atom names under another molecule name (it loads)"""
+    res = [[r[0], list(r[1])] for r in sp["cg"]]
+    if not alias:
+        k = int(rs.randint(0, len(res)))
+        j = int(rs.randint(0, len(res[k][1])))
+        res[k][1][j] = "X%d%d" % (k, j)
+    return {"name": ("ALS%s" if alias else "TFB%s") % tag, "cg": res, "aa": [[r[0], list(r[1])] for r in res],
+            "same_sig": True}
 
 
 def make_ambiguous(rs):
@@ -212,7 +251,7 @@ def make_ambiguous(rs):
     not prescribed by the property; that the answer is the same for every order and hash seed is."""
     nsp = int(rs.randint(1, 3))
     species = [make_species(rs, k, same_sig=(rs.randint(0, 6) == 0)) for k in range(nsp)]
-    kinds = ["two_aa_top", "two_coor", "stale", "spelling", "two_cg"]
+    kinds = ["two_aa_top", "two_coor", "stale", "spelling", "two_cg", "near_miss", "alias_cg"]
     chosen = {kinds[int(i)] for i in rs.permutation(len(kinds))[:int(rs.randint(1, 4))]}
     layout = int(rs.randint(0, 3))      # 0: cg/ aa/ old/ with equal base names, 1: flat, 2: nested deeper
     def fn(folder, n, ext):
@@ -236,6 +275,21 @@ def make_ambiguous(rs):
         files.append({"name": fn("old", victim, "gro"), "kind": "coor", "mols": [[victim, "aa"]]})
     if "two_cg" in chosen:
         files.append({"name": fn("cg_old", victim, "itp"), "kind": "top", "mol": victim, "res": "cg"})
+    pseudo, aliases = [], {}
+    vsp = [sp for sp in species if sp["name"] == victim][0]
+    if "near_miss" in chosen:
+        ps = near_miss(rs, vsp, "0")
+        pseudo.append(ps)
+        files.append({"name": fn(["alt", "zalt"][int(rs.randint(0, 2))], victim, "itp"), "kind": "top", "mol": ps["name"],
+                      "res": "cg"})
+    if "alias_cg" in chosen:
+        # same residues AND atom names under another molecule name: it loads; whichever of the two start topologies is
+        # scanned first takes the residues
+        ps = near_miss(rs, vsp, "0", alias=True)
+        pseudo.append(ps)
+        aliases[ps["name"]] = victim
+        files.append({"name": fn(["alias", "zalias"][int(rs.randint(0, 2))], victim, "itp"), "kind": "top",
+                      "mol": ps["name"], "res": "cg"})
     if rs.randint(0, 2):
         blocks.append(["SOL", int(rs.randint(1, 3))])
     blocks = [blocks[int(i)] for i in rs.permutation(len(blocks))]
@@ -261,7 +315,8 @@ def make_ambiguous(rs):
     elif rs.randint(0, 3) == 0:
         listing = [["REL:", "DOT:"][int(rs.randint(0, 2))] + x for x in listing]      # everything relative
     listing = [listing[int(i)] for i in rs.permutation(len(listing))]
-    return {"species": species, "in_system": [sp["name"] for sp in species], "blocks": [[b[0], int(b[1])] for b in blocks],
+    return {"species": species + pseudo, "in_system": [sp["name"] for sp in species],
+            "blocks": [[b[0], int(b[1])] for b in blocks], "aliases": aliases,
             "files": files, "ref": ref_name, "auto": listing, "known": [], "exclude": None,
             "geom_seed": int(rs.randint(0, 2 ** 31 - 1)), "profile": "ambig", "ambiguities": sorted(chosen)}
 
@@ -443,9 +498,11 @@ def expected_discovery(desc, d, known):
         aa = [p for p, f in entries if f["kind"] == "top" and f["mol"] == name and f["res"] == "aa"]
         co = [p for p, f in entries if f["kind"] in ("coor", "ref") and
               sum(1 for m in coor_content(desc, f) if m[0] == name and (m[1] == "aa" or sp["same_sig"])) == 1]
-        if len(cg) > 1 or len(aa) > 1 or len(co) > 1:
-            if cg or (sp["same_sig"] and aa):
-                ambiguous[name] = {"tops": set(cg + aa), "coords": all_coords}
+        als = [(p, f["mol"]) for p, f in entries if f["kind"] == "top" and desc.get("aliases", {}).get(f["mol"]) == name]
+        if len(cg) > 1 or len(aa) > 1 or len(co) > 1 or als:
+            if cg or als or (sp["same_sig"] and aa):
+                ambiguous[name] = {"tops": set(cg + aa + [p for p, _ in als]), "coords": all_coords,
+                                   "aliases": {m for _, m in als}}
             continue
         opts = []
         if sp["same_sig"]:
@@ -591,7 +648,7 @@ class Recorder:
         self.calls.append({"init": init, "molecules": [list(s) for s in species], "scale": scale, "outfile": outfile})
 
 
-def impl_main_record(argv):
+def impl_main_record(argv, cwd=None):
     """main() with auto_map replaced by a recorder: ('ok', call) | ('oserror',..) | ('exc', cls, msg) | ('exit', code)"""
     from gaddlemaps import _cli
     real = _cli.auto_map
@@ -599,7 +656,10 @@ def impl_main_record(argv):
     _cli.auto_map = rec
     old = sys.argv
     sys.argv = ["gaddlemaps"] + list(argv)
+    oldcwd = os.getcwd()
     try:
+        if cwd:
+            os.chdir(cwd)
         with warnings.catch_warnings():
             warnings.simplefilter("ignore")
             with _quiet(), contextlib.redirect_stderr(io.StringIO()):
@@ -614,6 +674,7 @@ def impl_main_record(argv):
     except Exception as e:      # noqa
         return ("exc", type(e).__name__, str(e)[:200])
     finally:
+        os.chdir(oldcwd)
         sys.argv = old
         _cli.auto_map = real
 
@@ -707,15 +768,17 @@ def oracle_discovery(desc, d, known, observations):
                 bad.append("%s: species %s assigned %s, its files are %s" % (label, n, got[n], opts[0]))
         for n, amb in ambiguous.items():
             # several candidates for one role: which one wins is not prescribed, only that they are this species' files
-            if n not in got:
+            names = [x for x in [n] + sorted(amb.get("aliases", ())) if x in got]
+            if not names:
                 bad.append("%s: species %s not discovered" % (label, n))
                 continue
-            v = got[n]
+            v = got[names[0]]
             if v.get("top_CG") not in amb["tops"] or ("top_AA" in v and v["top_AA"] not in amb["tops"]) or \
                     ("coor_AA" in v and v["coor_AA"] not in amb["coords"]) or v.get("top_AA") == v.get("top_CG"):
                 bad.append("%s: species %s assigned %s, its candidate topologies are %s" % (label, n, v, sorted(amb["tops"])))
         for n in got:
-            if n not in exp and n not in known_species and n not in ambiguous:
+            if n not in exp and n not in known_species and n not in ambiguous and \
+                    not any(n in a.get("aliases", ()) for a in ambiguous.values()):
                 bad.append("%s: unexpected species %s: %s" % (label, n, got[n]))
         if len(bad) > 6:
             break
@@ -893,14 +956,14 @@ def discovery_case(ctx, W, desc, d, rs, hash_obs=None, tag="gen"):
 
 def main_record_case(ctx, W, desc, d, rs):
     ref = os.path.join(d, desc["ref"])
-    files = [os.path.join(d, f) for f in desc["auto"]]
+    files = [spell(d, e) for e in desc["auto"]]
     mol = [[os.path.join(d, x) for x in k] for k in desc["known"]]
     use_auto = bool(rs.randint(0, 5))
     exclude = desc["exclude"] if rs.randint(0, 4) else None
     outfile = [None, os.path.join(d, "out.gro"), "rel_out.gro"][int(rs.randint(0, 3))]
     scale = [None, 0.5, 0.7, 1.0, 0.25][int(rs.randint(0, 5))]
     argv = build_argv(ref, mol, files if use_auto else None, exclude, outfile, scale)
-    obs = impl_main_record(argv)
+    obs = impl_main_record(argv, cwd=d if needs_cwd(desc) else None)
     meta = {"kind": "main_record", "desc": desc, "use_auto": use_auto, "exclude": exclude, "outfile": outfile,
             "scale": scale}
     stream, tbl, pairs = model_tables(desc, d)
@@ -952,7 +1015,7 @@ def main_real_case(ctx, W, d, ref_name, mol_names, auto_names, exclude, out_mode
         pre, cwd = leaf + "/", parent
     init = pre + ref_name
     mol = [[pre + x for x in t] for t in mol_names]
-    auto = None if auto_names is None else [pre + x for x in auto_names]
+    auto = None if auto_names is None else [pre + ("./" + x[4:] if x.startswith("DOT:") else x) for x in auto_names]
     outdir = os.path.join(absd, "outdir")
     os.makedirs(outdir, exist_ok=True)
     if out_mode == "default":
@@ -1307,10 +1370,11 @@ def replay(ctx, obj):
         d = materialize(r["desc"], os.path.join(root(), "replay"))
         desc = r["desc"]
         mol = [[os.path.join(d, x) for x in k] for k in desc["known"]]
-        files = [os.path.join(d, f) for f in desc["auto"]]
+        files = [spell(d, e) for e in desc["auto"]]
         argv = build_argv(os.path.join(d, desc["ref"]), mol, files if r["use_auto"] else None, r["exclude"],
                           r["outfile"], r["scale"])
-        bad = oracle_main_record(desc, d, mol, r["use_auto"], r["exclude"], r["outfile"], r["scale"], impl_main_record(argv))
+        bad = oracle_main_record(desc, d, mol, r["use_auto"], r["exclude"], r["outfile"], r["scale"],
+                                 impl_main_record(argv, cwd=d if needs_cwd(desc) else None))
     elif kind == "shipped_discovery":
         bad = shipped_discovery(ctx)
     elif kind == "shipped_mapping":
